@@ -39,6 +39,9 @@ type c05Params struct {
 	TrigDurMS int `json:"trig_dur_ms,omitempty"`
 	// Reps > 1: the run is repeated (the situation it aims at is a matter of a few milliseconds)
 	Reps int `json:"reps,omitempty"`
+	// ZoneS != 0: the process's local time zone is this many seconds east of UTC while the case runs (own child); such a
+	// case must return within 20 s - nothing in it lasts longer than a second
+	ZoneS int `json:"zone_s,omitempty"`
 	// SlowGatewayMS > 0: the run pushes its metrics to a (loopback) gateway that takes this long to answer every push
 	SlowGatewayMS int `json:"slow_gateway_ms,omitempty"`
 }
@@ -408,6 +411,21 @@ func init() {
 					cs = append(cs, cse)
 				}
 			}
+			// gaussian triggers with weights in a process whose local zone is not UTC (and no multiple of the repeat window)
+			for i, zone := range []int{19800, -12600} {
+				if tier == "quick" && i == 1 {
+					break
+				}
+				p := c05Params{Ending: "duration", Blocking: "none", ZoneS: zone, Desc: fmt.Sprintf("mode=gaussian(weights 1,2; repeat 7m) c=2 ending=duration blocking=none completion=300ms local zone UTC%+ds", zone)}
+				p.Spec = engine.RateSpec("gaussian", 2, 20, 2)
+				p.Spec.RepeatMS, p.Spec.PeakMS, p.Spec.StddevMS, p.Spec.Weights = 420000, 200000, 400000, "1,2"
+				p.Spec.Volume = 2 * 420000 / 20
+				p.Spec.IgnoreDropped, p.Spec.CompletionMS, p.Spec.MaxDurationMS = true, 300, 300
+				cse := core.MkCase("C05", "run", 7395+i, seed, p)
+				cse.Solo = true
+				cse.TimeoutMS = 90000
+				cs = append(cs, cse)
+			}
 			// a push gateway that takes 2.4 s to answer: the run is slower for it, and still leaves nothing behind
 			{
 				p := c05Params{Ending: "duration", Blocking: "none", SlowGatewayMS: 2400, Desc: "mode=constant c=2 ending=duration blocking=none completion=300ms push gateway answering after 2.4 s"}
@@ -478,6 +496,11 @@ func c05RunOnce(c *core.Case, o *core.Outcome, p c05Params) {
 		st := strings.TrimPrefix(p.Spec.YAML, "RESTARTED:")
 		st = strings.Replace(st, "duration: 2s", "duration: 1h", 1)
 		p.Spec.YAML = c05FileYAML(p.Spec.Concurrency, "20s", 0, st) + fmt.Sprintf("schedule:\n  stage-start: %s\n", time.Now().Add(-time.Hour-100*time.Millisecond).UTC().Format(time.RFC3339Nano))
+	}
+	if p.ZoneS != 0 {
+		old := time.Local
+		time.Local = time.FixedZone("verif", p.ZoneS)
+		defer func() { time.Local = old }()
 	}
 	if p.SlowGatewayMS > 0 {
 		gw := engine.NewGateway(200)
@@ -627,9 +650,22 @@ func c05RunOnce(c *core.Case, o *core.Outcome, p c05Params) {
 	if bound < 20*time.Second {
 		bound = 20 * time.Second
 	}
+	viol := func(key, format string, a ...any) { o.Violate(key+":"+p.Desc, format+" ("+p.Desc+")", a...) }
 	var r *engine.Run
+	idle := time.Duration(1 << 62)
+	if p.ZoneS != 0 {
+		idle = 20 * time.Second
+	}
 	select {
 	case r = <-done:
+	case <-time.After(idle):
+		// no iteration is held by the harness, the run's max-duration is 300 ms, its completion timeout 300 ms
+		if worst := stopWatch(e.l.Now()); worst > time.Second {
+			o.Inconc("the machine stalled for %v (%s)", worst, p.Desc)
+			return
+		}
+		viol("do-never-returns-idle", "20 s after it was started the run has not returned: %d iterations started, %d executing; its max-duration is %d ms and nothing holds its iterations - the run does not terminate", e.started.Load(), e.inflight.Load(), p.Spec.MaxDurationMS)
+		return
 	case <-time.After(bound + 60*time.Second):
 		// leave it to the watchdog (dump classification)
 		select {}
@@ -640,7 +676,6 @@ func c05RunOnce(c *core.Case, o *core.Outcome, p c05Params) {
 		o.Inconc("harness: cannot build run: %v (%s)", r.NewErr, p.Desc)
 		return
 	}
-	viol := func(key, format string, a ...any) { o.Violate(key+":"+p.Desc, format+" ("+p.Desc+")", a...) }
 	o.AddObs("runs_returned", 1)
 	setupFailed := p.Ending == "setup-fail" || p.Ending == "setup-panic"
 	timeoutExpired := false
